@@ -351,7 +351,11 @@ class ExprMem(Expr):
             return "@%d[%s]"%(self.size, str(self.arg))
     def get_r(self, mem_read=False):
         if mem_read:
-            return set(self.arg.get_r(mem_read).union(set([self])))
+            r = set(self.arg.get_r(mem_read).union(set([self])))
+            if isinstance(self.segm, Expr):
+                # the segment selector takes part in the address
+                r = r.union(self.segm.get_r(mem_read))
+            return r
         else:
             return set([self])
     def get_w(self):
